@@ -100,10 +100,13 @@ CHECKS = {
        "get_ancestors / get_overridden / is_linked_from (the guard in front of every link_obj delegation) and the USE-tree recursion with its "
        "current-path cut finish with fuel N+1 (N objects), i.e. never hit the recursion limit; parent pointers built by the parser always point to an "
        "earlier object for every file (so host walks need no guard). The walks are tied to the code by extracting the pointer graphs from the "
-       "implementation's objects and running the real methods against the model; the catalogue (8 cycle kinds x lengths x all identifiers x 8 "
-       "methods) must answer with results, quickly.",
+       "implementation's objects and running the real methods against the model. INCLUDE resolution is modelled as a rewriting system on the scope "
+       "graph (parent links and children lists): every sequence of attach operations guarded by ast.encloses and of detach operations keeps both link "
+       "kinds acyclic, the guard itself answers within N*(D+1)+2 steps, and on the result the unguarded walks (host climbing, update_fqsn) end; the unguarded "
+       "version is refuted by a witness (a procedure made its own child). ast.encloses is run on the real scope objects against the model. The catalogue (21 "
+       "cycle kinds x lengths x all identifiers x 8 methods, every file of an INCLUDE cycle saved again) must answer with results, quickly.",
   note="Trusted: Coq kernel, vm_compute, graph extraction harness. The walks are modelled by their recursion skeleton. Time is observed, steps are proved.",
-  technique="Rocq proof (termination by a pigeonhole measure on duplicate-free visited lists; forest invariant of the scope machine) + graph-extraction differential + cycle catalogue",
+  technique="Rocq proof (termination by a pigeonhole measure on duplicate-free visited lists; forest invariant of the scope machine; acyclicity invariant of guarded INCLUDE attachment by induction over operation sequences) + graph-extraction differential + cycle catalogue",
   design="4/C20"),
  "C05": dict(
   text="Coq theorems (C05/Props.v) about a branch-for-branch transcription of get_use_tree/find_in_scope: for ALL programs, whatever is returned "
@@ -113,9 +116,12 @@ CHECKS = {
        "(known findings). Re-export chains, shadowing depth and accessibility combinations are covered by the differential: the model and the "
        "generator's Fortran ground truth against textDocument/definition on generated multi-file workspaces. Components through `%`: the member list "
        "a type builds from its EXTENDS chain (own children, then inherited ones not redeclared) is modelled (C05/Inherit.v, validated against "
-       "Type.get_children) and the component found for obj%name is proved to be the nearest declaration up the chain, for every type table.",
-  note="Partial. Trusted: Coq kernel, vm_compute, generator ground truth. Fragment: variables, modules, a program with a contained procedure; no #GEN_INT, "
-       "INCLUDE, IMPORT, submodules, % chains. Known findings: C05:rename-lost-diamond, C05:private-reexport.",
+       "Type.get_children) and the component found for obj%name is proved to be the nearest declaration up the chain, for every type table. Unnamed and "
+       "abstract INTERFACE blocks (C05/Blocks.v): whatever a search from outside the module returns is accessible by the module's default accessibility, "
+       "in source order; the pinned rule is refuted by a witness; the model is run on children read back from parsed modules.",
+  note="Partial. Trusted: Coq kernel, vm_compute, generator ground truth. Fragment of the main model: variables, modules, a program with a contained procedure; #GEN_INT blocks and % chains "
+       "have models of their own; INCLUDE, IMPORT and submodules are catalogue-only. Known findings: C05:rename-lost-diamond, C05:private-reexport, "
+       "C05:private-use-associated, C05:use-rename-remote-name, C05:argument-keyword.",
   technique="Rocq proof over a transcription of the resolution functions (accessibility invariant for all programs; fragment correctness; refutation witnesses) + differential with generated ground truth + annotated catalogue (%-chains through EXTENDS, submodules, type-bound) re-queried after saves",
   design="4/C05"),
  "C06": dict(
@@ -145,12 +151,13 @@ CHECKS = {
        "every program printed by the fixed-form printer (column-1 comment flags C c * ! d D, 5-column label field, continuation mark in column 6, "
        "statements from column 7) is classified fixed for all statement texts under stated well-formedness; every free-form rendering with a statement "
        "indented by 1..4 blanks, a trailing `&` or an early declaration is classified free; a DO nest of any depth sharing a terminal label is closed "
-       "completely; fixed-form continuation gathering (any marks, comment and blank lines in between) hands the statement readers the statement up to blanks, "
+       "completely; fixed-form continuation gathering (any marks; comment lines flagged in column 1 or by an indented `!`, and blank lines in between; trailing comments "
+       "on the lines that are continued) hands the statement readers the statement up to blanks, "
        "which is the text the free-form twin yields (same statement cut at the same places, any number of pieces; models of both branches of get_code_line "
        "validated against the implementation); the direct character tests agree with the regenerated patterns on an exhaustive bounded domain; two refutation witnesses (known "
        "findings). The model is validated against detect_fixed_format on every run; understanding (entities, nesting, diagnostics) is compared between "
        "the .f and .f90 renderings of generated programs.",
-  note="Partial. Trusted: Coq kernel, vm_compute, hand model + differential, regex translator. Fixed-form statement gathering is differential only.",
+  note="Partial. Trusted: Coq kernel, vm_compute, hand model + differential (gathered lines compared one by one), regex translator. Lines with character literals are outside the gathering model.",
   technique="Rocq proof (characterisation of the form detector, printer recognised / free never fixed for all programs, labelled-DO stack) over a hand model validated differentially + paired fixed/free rendering differential",
   design="4/C14"),
  "C09": dict(
@@ -159,7 +166,8 @@ CHECKS = {
        "_create_ref_link and Diagnostic.build lie in the document for every object, hit or miss, given that gathered lines are views of document "
        "lines (checked on the implementation on every run); range_json keeps order; a refutation witness for its falsy-zero rule (unreachable at the "
        "pinned call sites). Totality of the nine positional handlers and validity of every range in results and diagnostics are established by a "
-       "sweep: hostile texts at all positions, generated programs, mutants and the sample sources at sampled positions inside and outside the text.",
+       "sweep: hostile texts (incl. preprocessed documents whose expansions are longer than the source) at all positions, generated programs, mutants and the "
+       "sample sources at sampled positions inside and outside the text, a history phase (unsaved edits, deleted files, in-place edits between reference scans).",
   note="Partial. Trusted: Coq kernel, vm_compute, regex translator, sweep harness. Handler totality is sweep-level, not a theorem.",
   technique="Rocq proof (word search / continuation search / link and diagnostic ranges valid for all documents) over a hand model validated differentially + exhaustive-position request sweep with range validation",
   design="4/C09"),
@@ -167,7 +175,7 @@ CHECKS = {
   text="Coq theorems (C07/Props.v): every well-formed file of any nesting depth leaves no END error; a bare END reached while a block construct is open adds, "
        "from every reachable state, exactly one entry naming the END line on the construct; 'declared twice' is reported exactly on a declaration that follows "
        "a same-named one on a later line and never when names are distinct; 'procedure before CONTAINS', 'USE after IMPLICIT', 'IMPORT outside interface', "
-       "'module not found' characterised exactly; the complete invalid-parent table (procedure in a type or block construct, type in a type, ...), lifted to whole program trees: "
+       "'module not found' characterised exactly (the two ordering rules compare line numbers strictly, so statements joined by `;` are not reported); the complete invalid-parent table (procedure in a type or block construct, type in a type, ...), lifted to whole program trees: "
        "a well-formed file that respects the nesting rules has neither END errors nor invalid parents at any depth, and a misplaced construct is reported "
        "on its opening line wherever it stands; a refutation witness of the pinned rule for a type in a BLOCK (fixed). The transcribed rules are validated per scope against the implementation's own "
        "check_* on every run. Silence on valid programs and presence/severity/line/no-unrelated-error for all 15 documented defect classes are checked by "
@@ -182,7 +190,8 @@ CHECKS = {
        "a server freshly started on the final directory, provided unit names never collide (H1); after any change the next save re-reads the disk. A "
        "refutation witness without H1 (name collision prunes another file's unit; known finding). The model is validated against the server after every "
        "event of generated histories; cross-file links, type layouts, completion, hover, references and diagnostics are compared by an identical query "
-       "battery on the long-lived and a fresh server.",
+       "battery on the long-lived and a fresh server, over generated, directed and scripted literal histories (single-line edits, discarded edits, "
+       "three-level EXTENDS over three files, emptied INCLUDE, deleted parent module).",
   note="Partial. Trusted: Coq kernel, vm_compute, trace validation, generator/battery. Link-level state is battery-only.",
   technique="Rocq proof (index invariant by induction over histories; quiescent = fresh refinement) over a hand model trace-validated after every event + long-lived vs fresh server query-battery differential",
   design="4/C10"),
@@ -191,7 +200,8 @@ CHECKS = {
        "give the same merged index, which is also what opening the files one by one on an empty server gives; that index is characterised exactly (each listed "
        "file parsed from its disk text, each unit owned by its file); a refutation witness without the uniqueness premise. Worker count, hash seed and the "
        "runtime (process pool, pickling) are exercised by a schedule sweep: permutations of the directory listing x worker counts up to 16 x hash seeds and "
-       "one-by-one opening orders, identical query battery compared with a reference schedule.",
+       "one-by-one opening orders, identical query battery compared with a reference schedule, on eleven workspaces (EXTENDS, submodules, INCLUDE, "
+       "preprocessed files sharing headers, a header in several include directories, ...).",
   note="Partial. Trusted: Coq kernel, vm_compute, the C10 model (trace-validated), the schedule runner. OS scheduling and pickling are not modelled.",
   technique="Rocq proof (permutation invariance and exact characterisation of the start-up merge) over the trace-validated C10 model + schedule sweep differential (listing order, workers, hash seed, one-by-one opening)",
   design="4/C15"),
@@ -200,7 +210,8 @@ CHECKS = {
        "and begins with the prefix, case-insensitively); for every program a candidate that comes through USE is a public child of its module (PRIVATE "
        "respected) and, under an ONLY list, one of the listed names; every name offered through a rename-free USE dictionary resolves under find_in_scope's "
        "USE search and, conversely, every name that search resolves to an entity is offered from that module (for rename-free dictionaries completion "
-       "through USE and go-to-definition agree exactly). The transcription is compared with textDocument/completion on generated "
+       "through USE and go-to-definition agree exactly); USE statements whose ONLY lists share nothing with the list in force import nothing, for any "
+       "number of statements. The transcription is compared with textDocument/completion on generated "
        "workspaces; the property oracle is the generator's ground truth of accessibility; `%` (inherited members), USE, ONLY: and CALL contexts are checked "
        "on an annotated catalogue.",
   note="Partial. Trusted: Coq kernel, vm_compute, C05 generator and resolution model, catalogue. Context classification is catalogue-only.",
@@ -209,7 +220,8 @@ CHECKS = {
  "C11": dict(
   text="Coq theorems (C11/Props.v): for every sequence of documentation blocks and entity creations no block is shown on two entities; a `!>` block documents the "
        "next entity, a `!<`/`!!` block the last one, nothing else changes; the active parameter of signature help is the argument index when no `keyword=` is "
-       "involved, the named parameter under `keyword=`, and the slot after it for the next positional argument. Both models are validated against the "
+       "involved, the named parameter under `keyword=`, and the slot after it for the next positional argument; a comparison `a == b` is never read "
+       "as a keyword, whatever the parameters are called. Both models are validated against the "
        "implementation (recorded add_doc/add_scope/add_variable events; activeParameter of serve_signature). Restating type, selector, attributes, name, "
        "PARAMETER value, documentation, argument order and per-argument declarations is checked by an oracle on generated modules.",
   note="Partial. Trusted: Coq kernel, vm_compute, trace validation, the generator and the normalising comparison. Declaration readers/renderers are oracle-only.",
